@@ -19,7 +19,7 @@ func init() {
 	Register("C15", &Info{
 		Run:   runC15,
 		Quick: 1500, Thor: 150000,
-		Rule: "a world = one ECH-capable fingerprint (parrots whose spec carries an ECH extension, HelloGolang, generated specs with an ECH extension) with Config.EncryptedClientHelloConfigList built by the harness (drawn config id, KDF/AEAD suite list, maximum_name_length, public name) against the repository's or the std library's ECH-capable server that accepts (holds the key), accepts after a forced HelloRetryRequest, or rejects (holds another key and advertises retry configs); oracle: the secret name never appears in the client's plaintext flight, the outer SNI is the public name, on acceptance both sides report ECHAccepted and the secret name and data echoes, on rejection the client returns ECHRejectionError carrying exactly the server's retry config list after verifying the certificate against the public name; non-trivial = an encrypted_client_hello extension of type outer with the drawn config id on the wire; distinct = (fingerprint, config, server behaviour, peer)",
+		Rule: "a world = one ECH-capable fingerprint (parrots whose spec carries an ECH extension, HelloGolang, generated specs with an ECH extension) with Config.EncryptedClientHelloConfigList built by the harness (drawn config id, KDF/AEAD suite list, maximum_name_length, public name) (alone, followed by further configs, or behind an entry of an unknown version); the parrot shapes are also applied as custom specs with the server name pre-filled into the SNI extension; against the repository's or the std library's ECH-capable server that accepts (holds the key), accepts after a forced HelloRetryRequest, or rejects (holds another key and advertises retry configs); oracle: the secret name never appears in the client's plaintext flight, the outer SNI is the public name, on acceptance both sides report ECHAccepted and the secret name and data echoes, on rejection the client returns ECHRejectionError carrying exactly the server's retry config list after verifying the certificate against the public name; non-trivial = an encrypted_client_hello extension of type outer with the drawn config id on the wire; distinct = (fingerprint, config, server behaviour, peer)",
 		Assumptions: []string{"ECHConfig encoding (draft-ietf-tls-esni-18 / RFC 9849 version 0xfe0d, DHKEM(X25519, HKDF-SHA256)) is produced by the harness; both servers decode it independently"},
 		Real:        []string{"utls client ECH path from /repo", "utls or std server with ECH keys"},
 		Stub:        []string{"transport, clock, crypto/rand"},
@@ -77,10 +77,26 @@ func runC15(c *Ctx) {
 		}
 	}
 	var idi IDInfo
-	if k := ch.Pick(4, "id-kind"); k == 0 {
+	var custom *tls.ClientHelloSpec
+	prefilled := false
+	if k := ch.Pick(5, "id-kind"); k == 0 {
 		idi = IDInfo{"Golang", tls.HelloGolang}
 	} else {
 		idi = echRealParrots[int(c.Run)%len(echRealParrots)]
+		if k == 4 {
+			// the same shape applied as a custom spec, optionally with the server name already
+			// filled into the spec's SNI extension (a supported way to choose the name)
+			if sp, err := tls.UTLSIdToSpec(idi.ID); err == nil {
+				prefilled = ch.Bool(60, "prefilled-sni")
+				for _, e := range sp.Extensions {
+					if sni, ok := e.(*tls.SNIExtension); ok && prefilled {
+						sni.ServerName = "example.test"
+					}
+				}
+				custom = &sp
+				idi = IDInfo{"Custom(" + idi.Name + ")", tls.HelloCustom}
+			}
+		}
 	}
 	behaviour := []string{"accept", "accept", "accept-hrr", "reject"}[ch.Pick(4, "behaviour")]
 	peer := ch.Pick(2, "peer")
@@ -114,9 +130,24 @@ func runC15(c *Ctx) {
 		scfg.CurvePreferences = []tls.CurveID{tls.CurveP384}
 		stdcfg.CurvePreferences = []stdtls.CurveID{stdtls.CurveP384}
 	}
-	ccfg := &tls.Config{ServerName: secret, RootCAs: Roots(), EncryptedClientHelloConfigList: good.list, MinVersion: tls.VersionTLS13, OmitEmptyPsk: true}
-	c.R.Class = fmt.Sprintf("%s %s peer=%s cid=%d suites=%v maxname=%d cert=%s", idi.Name, behaviour, peerName(peer), cid, suites, maxName, certName)
-	sp := &ConnSpec{ID: idi.ID, CCfg: ccfg, Peer: peer, SCfg: scfg, StdCfg: stdcfg, Payload: [][]byte{[]byte("ping-ech")},
+	// the config list handed to the client: the usable config alone, followed by further configs, or
+	// behind an entry of an unknown version (the first usable one is picked; its own bytes are the HPKE info)
+	extra, _ := buildECH(keyRand, cid+2, public, maxName, [][2]uint16{{1, 1}, {1, 3}})
+	listKind := ch.Pick(4, "list-kind")
+	var body []byte
+	switch listKind {
+	case 0, 1:
+		body = good.cfg
+	case 2:
+		body = append(append([]byte(nil), good.cfg...), extra.cfg...)
+	case 3:
+		body = append([]byte{0xfe, 0x0a, 0x00, 0x04, 0xde, 0xad, 0xbe, 0xef}, good.cfg...)
+		body = append(body, extra.cfg...)
+	}
+	list := append([]byte{byte(len(body) >> 8), byte(len(body))}, body...)
+	ccfg := &tls.Config{ServerName: secret, RootCAs: Roots(), EncryptedClientHelloConfigList: list, MinVersion: tls.VersionTLS13, OmitEmptyPsk: true}
+	c.R.Class = fmt.Sprintf("%s %s peer=%s cid=%d suites=%v maxname=%d cert=%s list=%d prefilled=%v", idi.Name, behaviour, peerName(peer), cid, suites, maxName, certName, listKind, prefilled)
+	sp := &ConnSpec{ID: idi.ID, Spec: custom, CCfg: ccfg, Peer: peer, SCfg: scfg, StdCfg: stdcfg, Payload: [][]byte{[]byte("ping-ech")},
 		Setup: func(l *simnet.Link) { l.Frag = ch.Bool(30, "frag") }}
 	o := RunConn(c, w, sp)
 	c.Finish(w, true)
